@@ -1,7 +1,7 @@
 PROP = {
     "title": "Queries and encoders never modify their receiver and may run concurrently",
     "run_modules": [],
-    "gen": ["setters", "effects"],
+    "gen": ["setters", "effects", "wrappers"],
     "n": {"quick": 1500, "thorough": 30000},
     "race_stress": {"quick": 150, "thorough": 4000},
     "level": "proof",
